@@ -24,8 +24,8 @@ fn domain(field: &str) -> Vec<&'static str> {
         "exe" => vec!["detect", "build", "foo", "detect.bak", "build.sh", "rebuild", "Detect", "detect-v2"],
         "argc" => vec!["0", "1", "2", "3", "4"],
         "platform" => vec!["ok", "rich", "noenvdir", "envisfile", "nonutf8"],
-        "plan" => vec!["ok", "malformed", "missing"],
-        "store" => vec!["absent", "ok", "malformed"],
+        "plan" => vec!["ok", "malformed", "missing", "nonutf8"],
+        "store" => vec!["absent", "ok", "malformed", "nonutf8", "isdir"],
         "t_os" | "t_arch" | "t_dname" | "t_dver" => vec!["set", "unset"],
         "t_variant" => vec!["set", "unset", "nonutf8"],
         "detect" => vec!["pass", "pass_plan", "fail", "error"],
@@ -137,6 +137,7 @@ fn run_case(case: &Value, variation: u64, vbp: &Path, scratch: &Path) -> Vec<Pro
                 fs::write(&plan_path, s).unwrap();
             }
             "malformed" => fs::write(&plan_path, "[[entries]]\nnombre = \"x\"\n").unwrap(),
+            "nonutf8" => fs::write(&plan_path, b"[[entries]]\nname = \"\xff\"\n").unwrap(),
             _ => {}
         }
     } else if plan_path.parent().unwrap().is_dir() {
@@ -155,7 +156,13 @@ fn run_case(case: &Value, variation: u64, vbp: &Path, scratch: &Path) -> Vec<Pro
         "malformed" => store_text = Some("[metadata\nx = 1\n".into()),
         _ => {}
     }
-    if let Some(s) = &store_text {
+    let mut store_bytes: Option<Vec<u8>> = store_text.clone().map(String::into_bytes);
+    match c("store") {
+        "nonutf8" => store_bytes = Some(b"[metadata]\nk = \"\xff\xfe\"\n".to_vec()),
+        "isdir" => fs::create_dir_all(layers.join("store.toml")).unwrap(),
+        _ => {}
+    }
+    if let Some(s) = &store_bytes {
         fs::write(layers.join("store.toml"), s).unwrap();
     }
     // pre-existing outputs of an earlier build
@@ -270,7 +277,7 @@ fn run_case(case: &Value, variation: u64, vbp: &Path, scratch: &Path) -> Vec<Pro
                 };
                 if !ok { p5(format!("{n} was provided by the build result but the file is {:?}", got.map(|b| String::from_utf8_lossy(&b).to_string()))); }
             } else {
-                let before: Option<Vec<u8>> = if *n == "store.toml" { store_text.clone().map(String::into_bytes) } else if pre { Some(format!("# stale {n}\n").into_bytes()) } else { None };
+                let before: Option<Vec<u8>> = if *n == "store.toml" { store_bytes.clone() } else if pre { Some(format!("# stale {n}\n").into_bytes()) } else { None };
                 if got != before {
                     p5(format!("{n} was not provided by the build result but changed: before {:?}, after {:?}", before.map(|b| String::from_utf8_lossy(&b).to_string()), got.map(|b| String::from_utf8_lossy(&b).to_string())));
                 }
